@@ -133,14 +133,14 @@ func (s *dsys) addAtom(a Atom) {
 // ---------------------------------------------------------------------------
 
 type BoundOb struct {
-	Fn      *ssa.Function
-	Instr   ssa.Instruction
-	Kind    string
-	Desc    string // position-free construct descriptor
-	OK      bool
-	How     string
-	Detail  string
-	Goals   []string
+	Fn     *ssa.Function
+	Instr  ssa.Instruction
+	Kind   string
+	Desc   string // position-free construct descriptor
+	OK     bool
+	How    string
+	Detail string
+	Goals  []string
 }
 
 type boundsEntry struct {
